@@ -17,7 +17,7 @@ from mc.harness.client import run as drive
 from mc.refmodel.server import typed_eq
 
 UNK, CONF, NULL = 'unk', 'conf', 'null'
-JUNK = [1, {}, [], {'jsonrpc': '2.0', 'id': True, 'result': 1}, {'jsonrpc': '2.0', 'id': False, 'error': {'code': 1, 'message': 'm'}}, {'jsonrpc': '2.0', 'id': 1}, {'jsonrpc': '1.0', 'id': 1, 'result': 1},
+JUNK = [{'jsonrpc': '2', 'id': 1, 'result': 1}, {'jsonrpc': '', 'id': 1, 'result': 1}, {'jsonrpc': '.0', 'id': 1, 'error': {'code': 1, 'message': 'm'}}, 1, {}, [], {'jsonrpc': '2.0', 'id': True, 'result': 1}, {'jsonrpc': '2.0', 'id': False, 'error': {'code': 1, 'message': 'm'}}, {'jsonrpc': '2.0', 'id': 1}, {'jsonrpc': '1.0', 'id': 1, 'result': 1},
         {'jsonrpc': '2.0', 'id': 1, 'result': 1, 'error': {'code': 1, 'message': 'm'}},
         {'jsonrpc': '2.0', 'id': 1, 'error': {'code': '1', 'message': 'm'}}, {'jsonrpc': '2.0', 'id': [1], 'result': 1},
         # error objects without a (string) message - also for codes that have a registered class with a default message
@@ -66,9 +66,11 @@ def real_id(ref, n, base=1):
     return ref + base
 
 
-def entry_obj(ref, ok, pos, n, base=1):
+def entry_obj(ref, ok, pos, n, base=1, flat=False):
     id = real_id(ref, n, base)
     o = {'jsonrpc': '2.0', 'id': id}
+    if flat:
+        pos = 0          # the payload does not depend on the position: a repeated id repeats the whole response (a replayed frame)
     if ok:
         o['result'] = {'for': id, 'pos': pos}
     else:
@@ -90,6 +92,10 @@ def gen_cases(ctx):
                         yield dict(part='batch', kind=kind, strict=True, n=n, notif=False, via='call', entries=entries, custom=True)
                     if n >= 2 and L == n and len({r for r, _ in entries}) == n:
                         yield dict(part='batch', kind=kind, strict=True, n=n, notif=False, via='call', entries=entries, build='add+getitem')
+                    if len(set(entries)) < len(entries):
+                        # an id repeated with the very same payload
+                        for via in ('call', 'send'):
+                            yield dict(part='batch', kind=kind, strict=True, n=n, notif=False, via=via, entries=entries, flat=True)
                     # ids starting at 0 (sequential(start=0)): the first call has a falsy id
                     yield dict(part='batch', kind=kind, strict=True, n=n, notif=False, via='call', entries=entries, base=0)
                     if kind == 'sync':
@@ -162,7 +168,7 @@ def has_dup(ids):
 def run_batch(c, rec):
     n, strict, entries = c['n'], c['strict'], [tuple(e) for e in c['entries']]
     base = c.get('base', 1)
-    doc = [entry_obj(r, ok, pos, n, base) for pos, (r, ok) in enumerate(entries)]
+    doc = [entry_obj(r, ok, pos, n, base, flat=bool(c.get('flat'))) for pos, (r, ok) in enumerate(entries)]
     expect_deser = False
     if 'junk' in c:
         pos, j = c['junk']
